@@ -3,6 +3,7 @@ import copy
 
 import fw
 import tygen
+import c06hist
 from fw import gZ, glist, gopt, gpair, gapp, gbool, gnat
 
 # op term schemas: name -> list of (field kind); kinds: row, orow (optional row), ty, oty, sum, osum, F, oF, P,
@@ -66,17 +67,30 @@ class C06(fw.Prop):
             "op.port_type, Hugr.port_kind, Hugr.port_type), nth_inputs/nth_outputs for n in -1..k+1, and "
             "constructor cases for Call/LoadFunc; plus a deterministic small-scope sweep (every class x all "
             "combinations of the rows [], [usize], [qubit, usize] in every field, optional fields unset; capped "
-            "at 6 / 60 combinations per class).  non-trivial = the implementation returned at least one "
+            "at 6 / 60 combinations per class); plus histories of ONE Hugr (harness/c06hist.py): raw add_node / "
+            "delete_node with the freed index reused by an operation of another signature / `hugr[n].op = ..` / "
+            "assignment of an operation's public fields / resolve_extensions, and builder programs (Dfg and "
+            "Module+Function roots: partial Noop/MakeTuple/UnpackTuple/CallIndirect/Output completed by add_op and "
+            "set_outputs, the same operation object completed twice, nested DFG / TailLoop / Conditional / CFG "
+            "builders completing their parent operation, call / load_function, delete_node + add_op reusing the "
+            "index); after every step the operation of every live node is read back and every node whose operation "
+            "changed is queried again at every offset in both directions (op.port_kind, op.port_type, "
+            "Hugr.port_kind, Hugr.port_type, outer/inner signature, num_out), the others at output port 0, vacant "
+            "indices must give no answer.  non-trivial = the implementation returned at least one "
             "value (not only exceptions) in the case")
     trusted = ["constants are represented by the type their value reports (val.type_()); typing of values is C14",
                "exception classes are observed but compared only as 'an exception was raised'",
                "harness/tygen.py: two printers (term -> Gallina, hugr object -> Gallina) cross-checked on every "
-               "generated type"]
+               "generated type",
+               "histories: the operation a node holds is read back from the operation object's public attributes "
+               "(harness/c06hist.py print_op); the answers are checked against the model/specification of THAT "
+               "operation -- which types a builder hands to a partial operation is C01's subject, not C06's"]
     assumptions = ["port offsets are >= -1 (Python's negative list indexing below -1 is outside the property)",
                    "type substitution is not computed by hugr-py: the instantiation is the one given to Call/LoadFunc"]
 
     def __init__(self):
         self.g = tygen.TyGen()
+        self.hist = c06hist.Hist(self)
 
     # ------------------------------------------------------------------ generation
     def rand_field(self, rng, kind, depth):
@@ -229,6 +243,8 @@ class C06(fw.Prop):
                     ["TailLoop", [], [], [], []], ["CallIndirect", ["F", [], [], []]], ["Some", []]]):
             cases.extend(self.cases_for(op))
         cases.extend(self.small_scope(tier))
+        # histories of one Hugr (after everything else: the stream of the cases above is unchanged)
+        cases.extend(self.hist.generate(rng, tier))
         return cases
 
     def small_scope(self, tier):
@@ -292,6 +308,7 @@ class C06(fw.Prop):
         # LoadFunc.num_out was a dataclasses.Field object (the class is not a dataclass)
         out.append({"kind": "sig", "op": ["LoadFunc", ["P", [], ["F", [["Qubit"]], [], []]], None, None]})
         out.append({"kind": "sig", "op": ["LoadFunc", poly, inst, targs]})
+        out.extend(self.hist.corpus())
         return out
 
     # ------------------------------------------------------------------ running the implementation
@@ -406,6 +423,9 @@ class C06(fw.Prop):
         from hugr.hugr.node_port import InPort, OutPort, Node
         g = self.g
         k = case["kind"]
+        if k == "hist":
+            trace, applied = self.hist.run(case)
+            return {"trace": trace, "applied": applied}
         try:
             op = self.build_op(case["op"])
         except Exception as e:                              # noqa: BLE001
@@ -519,6 +539,8 @@ class C06(fw.Prop):
     def literal(self, case, obs, ctx):
         g = self.g
         k = case["kind"]
+        if k == "hist":
+            return self.hist.literal(obs)
         t = case["op"]
         psig = "([%s], [], [])" % POISON
         if k == "new":
@@ -555,13 +577,19 @@ class C06(fw.Prop):
 
     # ------------------------------------------------------------------ reporting
     def describe(self, case, obs):
+        if case["kind"] == "hist":
+            return {"input": case, "observed": self.hist.describe(obs)}
         o = {k: (v if k == "oplit" else (v[1] if v[0] == "err" else v[2])) for k, v in (obs or {}).items() if k != "oplit"}
         return {"input": case, "observed": o}
 
     def nontrivial(self, case, obs):
+        if case["kind"] == "hist":
+            return any(e[0] == "port" and e[7][0] == "ok" for e in obs["trace"])
         return any(v[0] == "ok" for k, v in obs.items() if k != "oplit")
 
     def signature(self, case, obs, ctx):
+        if case["kind"] == "hist":
+            return "ops:hist:%s:%s" % (case.get("root", "raw"), "+".join(sorted({st["s"] for st in case["steps"]})))
         k, name = case["kind"], case["op"][0]
         if k == "port":
             z = case["z"]
@@ -571,6 +599,9 @@ class C06(fw.Prop):
         return "ops:%s:%s" % (k, name)
 
     def shrink(self, case):
+        if case["kind"] == "hist":
+            yield from self.hist.shrink(case)
+            return
         op = case["op"]
         g = self.g
         if case["kind"] == "port" and case["z"] > 0:
@@ -593,6 +624,8 @@ class C06(fw.Prop):
                     yield {**case, "op": op[:i] + [s] + op[i + 1:]}
 
     def neighbours(self, case, rng):
+        if case["kind"] == "hist":
+            return list(self.hist.shrink(case))
         op = case["op"]
         out = self.cases_for(op)
         for c in list(self.shrink(case))[:200]:
@@ -603,8 +636,11 @@ class C06(fw.Prop):
         d = {"by_kind": {}, "by_op": {}, "exceptions": {}, "order_port_cases": 0, "arity_changing_calls": 0,
              "incomplete_ops": 0, "linear_rows": 0, "rowvar_ops": 0}
         seen = set()
+        d["histories"] = self.hist.distribution(cases, observations)
         for c, o in zip(cases, observations):
             d["by_kind"][c["kind"]] = d["by_kind"].get(c["kind"], 0) + 1
+            if c["kind"] == "hist":
+                continue
             name = c["op"][0]
             d["by_op"][name] = d["by_op"].get(name, 0) + 1
             for k, v in o.items():
